@@ -196,10 +196,30 @@ def run(rep, facts):
             sh = g._known(n.tag).get(0)
             if sh is not None and sh[0] == 0:
                 gens.add("RB")
+        # writeable() completed (close() awaits it first: for a two-stream role that is what makes the request writeable)
+        if n.term["k"] == "return" and n.frame.body.npath.startswith("async_io::Request::writeable::{closure"):
+            gens.add("WA")
         if nm == CLOSE:
-            kills.add("KEEP")
+            kills.update(["KEEP", "WA"])
         return gens, kills
     must = common.must_dataflow(g, frozenset(), effect)
+    # the epilogue's stream list is chosen from the writeable flag: that flag is read only after close() has awaited writeable()
+    nflag = 0
+    for n in g.all_nodes():
+        if n.key not in must or n.term["k"] != "switch":
+            continue
+        if not n.frame.body.npath.startswith("async_io::Request::close::{closure"):
+            continue
+        de = ev.switch_expr(n)
+        x = ir.peel(de) if de is not None else None
+        if x is not None and x[0] == 'field' and x[2] == 'writeable':
+            nflag += 1
+            if "WA" in must[n.key]:
+                rep.ok("R7.3", "close/writeable-read-after-final-stream", "close() reads the writeable flag only after it awaited writeable()", n.loc())
+            else:
+                rep.violation("R7.3", "close/writeable-read-after-final-stream", "close() reads the writeable flag before it awaited writeable(): a request that becomes writeable "
+                              "only by that call (two input streams, handler returned early) gets an EndRequest without the empty Stdout / Stderr records", n.loc())
+    rep.floor("R7.3", "reads of the writeable flag in close()", nflag, 1)
 
     def in_close(n):
         return any(fr.body.npath.startswith("async_io::Request::close") for fr in n.frame.stack())
